@@ -287,6 +287,36 @@ func TestC16_BIP32(t *testing.T) {
 		if err != nil || dp.String() != xpub {
 			t.Fatalf("DeserializeEncodedPublicKey(%q): %v", xpub, err)
 		}
+		// public derivation from a key that came from its serialisation: the children equal the reference, and neither the
+		// caller's bytes nor the parent key change, however often it is derived from (watch-only wallets start this way)
+		if refCur.Depth < 255 {
+			rawPub, _ := base58.Decode(xpub)
+			keep := append([]byte(nil), rawPub...)
+			dk, err := bip32.DeserializePublicKey(rawPub)
+			if err != nil {
+				t.Fatalf("DeserializePublicKey(%x): %v", rawPub, err)
+			}
+			ckv := dk.Clone()
+			ck := &ckv
+			for _, i := range []uint32{rapid.Uint32Range(0, bip.Hardened-1).Draw(t, "pubchild1"), rapid.Uint32Range(0, bip.Hardened-1).Draw(t, "pubchild2")} {
+				want, werr := refCur.Neuter().CKDpub(i)
+				for _, parent := range []*bip32.PublicKey{dk, ck} {
+					got, gerr := parent.NewPublicChildKey(i)
+					if (werr == nil) != (gerr == nil) {
+						t.Fatalf("NewPublicChildKey(%d) of the deserialised %s: err=%v, reference err=%v", i, xpub, gerr, werr)
+					}
+					if werr == nil {
+						cmpPub(t, fmt.Sprintf("child %d of deserialised %s", i, xpub), got, want)
+					}
+				}
+				if !bytes.Equal(rawPub, keep) {
+					t.Fatalf("deriving child %d changed the caller's serialised key bytes: %x -> %x", i, keep, rawPub)
+				}
+				if dk.String() != xpub || ck.String() != xpub {
+					t.Fatalf("deriving child %d changed the parent key: %s / %s, was %s", i, dk.String(), ck.String(), xpub)
+				}
+			}
+		}
 		if _, err := bip32.DeserializeEncodedPrivateKey(xpub); err == nil {
 			t.Fatalf("xpub accepted as xprv")
 		}
